@@ -337,10 +337,21 @@ Definition cst_code (c : cstate) : Z := match c with Running => 2 | Shutdown => 
 
 (* strict comparison after a serialized run (replay consumed every event).
    loose = the scenario contains a peer reset: what reached the peer before the reset is not determined *)
+(* the peer wrote after some Close/ForceClose had won the CAS: the kernel may answer data that
+   arrives after the shutdown with a reset, and what the peer has not read yet is then lost *)
+Fixpoint peer_wrote_after_cas (seen_cas : bool) (evs : list (Z * Z * Z * Z)) : bool :=
+  match evs with
+  | [] => false
+  | (k, _, p, _) :: r =>
+      if seen_cas && (k =? 5) && (p =? 60) then true
+      else peer_wrote_after_cas (seen_cas || (((k =? 3) || (k =? 2)) && ((p =? 31) || (p =? 40)))) r
+  end.
+
 Definition compare_final (sc : scen) (o : obs) (s : st) (pend : list (Z * Z * Z * Z)) : verdict :=
   let loose := has_rst sc in
+  let loose_wire := loose || peer_wrote_after_cas false (o_events o) in
   vjoin (check_that (match pend with [] => true | _ => false end) (VMismatch 1))
- (vjoin (check_that (loose || negb (o_eof o =? 1) || zeqb_list (map pid (wire s)) (wire_ids o)) (VMismatch 2))
+ (vjoin (check_that (loose_wire || negb (o_eof o =? 1) || zeqb_list (map pid (wire s)) (wire_ids o)) (VMismatch 2))
  (vjoin (check_that (list_eqb (list_eqb pair_eqb) (map results (senders s)) (o_results o)) (VMismatch 3))
  (vjoin (check_that (loose || zeqb_list [psent s; bsent s; precv s; brecv s] (o_counters o)) (VMismatch 4))
  (vjoin (check_that (zeqb_list (map pid (delivered s)) (o_delivered o)) (VMismatch 5))
